@@ -85,6 +85,18 @@ def build_jobs(prop, plan, tier, seed, known_sigs):
     res = build.build_many([(cpp, c, flavor, (), libs) for (sp, c, cpp) in todo])
     jobs, failed = [], []
     nex = plan['examples'][0 if tier == 'quick' else 1]
+    if plan.get('multi'):
+        by_spec = {}
+        for (sp, c, cpp), (b, log) in zip(todo, res):
+            if not b:
+                failed.append(dict(spec=sp['id'], cfg=c, log=log[-1500:]))
+                continue
+            by_spec.setdefault(sp['id'], (sp, {}))[1][c] = b
+        for sid, (sp, bins) in by_spec.items():
+            if len(bins) >= 2:
+                jobs.append(dict(spec=sp, cfg=sorted(bins)[0], bins=bins, prop=prop, oracle=plan['oracle'], cp=plan['cp'], max_examples=nex,
+                                 seed=seed, known_sigs=tuple(known_sigs), env=plan.get('env'), tier=tier))
+        return specs, jobs, failed
     for (sp, c, cpp), (b, log) in zip(todo, res):
         if not b:
             failed.append(dict(spec=sp['id'], cfg=c, log=log[-1500:]))
@@ -98,6 +110,8 @@ def build_jobs(prop, plan, tier, seed, known_sigs):
 def replay_failure(prop, plan, spec, cfg, concrete, times=3):
     """re-run a concrete case through the plain path (no Hypothesis); returns list of failure messages (None = passed)."""
     from . import oracles
+    if plan.get('multi'):
+        return replay_failure_multi(prop, plan, spec, concrete, times)
     cpp = emit.emit_cpp(spec)
     b, log = build.build_one(cpp, cfg, plan.get('flavor', 'plain'), (), tuple(plan.get('libs', ())))
     if not b:
@@ -112,8 +126,8 @@ def replay_failure(prop, plan, spec, cfg, concrete, times=3):
             try:
                 per_op = ex.replay(concrete)
             except (SUT.SutCrash, SUT.SutHang) as e:
-                out.append('SUT crashed rc=%s' % e.rc)
-                sig = 'hang' if e.rc == 'hang' else 'crash'
+                out.append('SUT crashed rc=%s %s' % (e.rc, (e.err or '')[-300:]))
+                sig = engine.crash_sig(e, concrete)
                 continue
             ctx = oracles.Ctx(spec, static, cfg, concrete, per_op, dict(prop=prop, tier='replay', idmap=s.idmap))
             try:
@@ -149,7 +163,7 @@ def run_check(prop, tier):
     workers = int(os.environ.get('VERIF_JOBS', '16'))
     results = []
     with ProcessPoolExecutor(max_workers=workers) as ex:
-        for r in ex.map(engine.run_job, jobs):
+        for r in ex.map(engine.run_job_multi if plan.get('multi') else engine.run_job, jobs):
             results.append(r)
     # aggregate
     evaluations = sum(r['evaluations'] for r in results)
@@ -303,3 +317,37 @@ def c12_uninit(prop, plan, tier, jobs, results):
                 bad += 1
                 break
     return lines, bad, dict(uninit=dict(zero_vs_pattern_cases=diff_cases, valgrind_cases=vg_cases, configurations=[build.CONFIGS[c] for c in cfgs]))
+
+
+def replay_failure_multi(prop, plan, spec, concrete, times=3):
+    from . import oracles
+    cpp = emit.emit_cpp(spec)
+    cfgs = configs_for(spec, plan['configs'])
+    built = build.build_many([(cpp, c, plan.get('flavor', 'plain'), (), tuple(plan.get('libs', ()))) for c in cfgs])
+    bins = {c: b for c, (b, log) in zip(cfgs, built) if b}
+    static = ST.Static(spec)
+    out, sig = [], None
+    for _ in range(times):
+        suts = {c: SUT.Sut(b, env=plan.get('env')) for c, b in bins.items()}
+        try:
+            runs = {}
+            try:
+                for c in sorted(bins):
+                    runs[c] = engine.Exec(spec, static, suts[c], auto_probe=plan['cp'].get('auto_probe', False)).replay(concrete)
+            except (SUT.SutCrash, SUT.SutHang) as e:
+                out.append('SUT crashed rc=%s %s' % (e.rc, (e.err or '')[-300:]))
+                sig = engine.crash_sig(e, concrete)
+                continue
+            base = sorted(bins)[0]
+            ctx = oracles.Ctx(spec, static, base, concrete, runs[base], dict(prop=prop, tier='replay'))
+            ctx.runs = runs
+            try:
+                getattr(oracles, plan['oracle'])(ctx)
+                out.append(None)
+            except engine.Violation as v:
+                out.append(v.msg)
+                sig = v.sig
+        finally:
+            for s_ in suts.values():
+                s_.close()
+    return out, sig
